@@ -9,7 +9,7 @@ import (
 func init() { register("C08", checkC08) }
 
 var c08Origins = []string{"literal", "literal-raw", "file", "stdin", "stdin-prompt", "cmd"}
-var c08Paths = []string{"print", "assign", "concat", "compare", "arg", "arg-direct", "return", "slice-store", "slice-literal", "slice-load-copy", "range-string", "range-slice", "subscript", "len", "write"}
+var c08Paths = []string{"print", "assign", "concat", "compare", "arg", "arg-direct", "return", "slice-store", "slice-literal", "slice-load-copy", "range-string", "range-slice", "subscript", "len", "write", "panic", "switch"}
 
 // c08Program builds the program for one (origin, path) with value v. ok=false
 // when the combination is not defined (e.g. a raw literal cannot hold a backquote).
@@ -106,6 +106,19 @@ func c08Program(origin, path, v, place string) (bc BashCase, ok bool) {
 		stmts = append(stmts, pr(sl("end")))
 	case "len":
 		stmts = append(stmts, pr(Len{V}, Len{bin("+", V, sl("ab"))}))
+	case "panic":
+		// the value written directly as the message (a literal for the literal origins); the variable form sits in a branch that is compiled but not taken
+		if origin == "cmd" {
+			direct = V
+		}
+		if direct != V {
+			stmts = stmts[:len(stmts)-1]
+			stmts = append(stmts, pr(sl("before")), Panic{direct}, pr(sl("never reached")))
+		} else {
+			stmts = append(stmts, pr(sl("before")), Panic{V}, pr(sl("never reached")))
+		}
+	case "switch":
+		stmts = append(stmts, def("w", V), Switch{Tag: V, Cases: []SwitchCase{{E: sl("zz"), Body: []Stmt{pr(sl("wrong"))}}, {E: vr("w"), Body: []Stmt{pr(sl("same"))}}, {Default: true, Body: []Stmt{pr(sl("default"))}}}}, Switch{Tag: sl("zz"), Cases: []SwitchCase{{E: V, Body: []Stmt{pr(sl("equal to zz"))}}, {Default: true, Body: []Stmt{pr(sl("not zz"))}}}})
 	case "write":
 		stmts = append(stmts, Write{Path: sl("out.txt"), Data: V}, Write{Path: sl("out.txt"), Data: bin("+", sl("2:"), V), Append: bl(true)}, pr(sl("written")))
 	default:
@@ -182,7 +195,7 @@ var c08Payloads = map[string]string{
 }
 
 func checkC08(c *Check) {
-	c.Rule = "table: origin (literal interpreted/raw, file via read, stdin via input, command output via @cat) x data path (15: print, assign, concat, compare, argument via a variable, argument written directly in the call, return, slice store, slice literal, slice load via copy, range over string, range over slice, subscript, len, write) x character (95 printable ASCII, newline, tab) x position (first, middle, last, only) x place (top level, function body, two blocks deep inside a function), one program per cell, plus a payload list (command substitution, backticks, option-like words, globs, redirections, history, blanks) on every path x origin and random strings (thorough); each program runs under real bash in a sandbox; oracle = reference stdout/exit, empty stderr and the complete sandbox file system (any file the reference does not predict, e.g. a CANARY created by executed data, is a violation). Non-trivial = every cell; distinct = SHA-256 of source + stdin + files"
+	c.Rule = "table: origin (literal interpreted/raw, file via read, stdin via input, command output via @cat) x data path (17: panic message, switch tag and case, print, assign, concat, compare, argument via a variable, argument written directly in the call, return, slice store, slice literal, slice load via copy, range over string, range over slice, subscript, len, write) x character (95 printable ASCII, newline, tab) x position (first, middle, last, only) x place (top level, function body, two blocks deep inside a function), one program per cell, plus a payload list (command substitution, backticks, option-like words, globs, redirections, history, blanks) on every path x origin and random strings (thorough); each program runs under real bash in a sandbox; oracle = reference stdout/exit, empty stderr and the complete sandbox file system (any file the reference does not predict, e.g. a CANARY created by executed data, is a violation). Non-trivial = every cell; distinct = SHA-256 of source + stdin + files"
 	c.Assumptions = []string{"reference interpreter treats strings as byte vectors", "run-time origins skip values ending in a newline (the origin APIs drop it, C17/C18)", "Batch target not claimed"}
 	runProbes(c, bashProbeJudge)
 	cases := []BashCase{}
